@@ -1,4 +1,5 @@
 import FrappyProofs.Lemmas.Config
+import FrappyProofs.Lemmas.Merge
 import FrappyModel.Klass.ConfigDT
 import FrappyModel.Generated.C10
 /-
@@ -275,14 +276,66 @@ theorem errors_complete (ops : Ops DT Val) :
 
 /-! ## merging -/
 
-/-- full statement of `merge_first_wins`: what `load_config` returns satisfies the merge clause
-(first definition of each name wins, origin recorded for merged-in modules, names occurring in
-several files are listed as ambiguous) for every list of files whose module names are unique
-within a file.  NOT proved in general (no time left for the induction over files); checked by the
-monitor `mergeB` on every observed merge, and proved below on concrete file lists. -/
-def merge_first_wins_statement : Prop :=
-  ∀ (files : List (CfgFile String)), (∀ f ∈ files, (f.modules.map (·.1)).Nodup) →
-    mergeB (· == ·) files (loadConfig files) = true
+/-- the definition a (sub)list of `Mod` calls of one file leaves for name `k`: the LAST one -/
+def lastDef {M : Type} (k : Name) (l : List (Name × M)) (init : Option M) : Option M :=
+  l.foldl (fun acc kv => if kv.1 = k then some kv.2 else acc) init
+
+theorem lookup_setKey {M : Type} (k n : Name) (v : M) : ∀ (d : List (Name × M)),
+    lookup k (setKey n v d) = if n = k then some v else lookup k d := by
+  intro d
+  induction d with
+  | nil => simp [setKey, lookup]
+  | cons x d ih =>
+    simp only [setKey]
+    by_cases hx : x.1 = n
+    · simp only [hx, ↓reduceIte, lookup]
+      by_cases hn : n = k <;> simp [hn]
+    · simp only [hx, ↓reduceIte, lookup, ih]
+      by_cases hxk : x.1 = k
+      · have : n ≠ k := fun h => hx (by rw [hxk, h])
+        simp [hxk, this]
+      · simp [hxk]
+
+/-- `merge_first_wins`, part 1 — within ONE file a later `Mod` of the same name replaces the earlier one
+(`Config.__init__`: dict comprehension; only a warning is logged) -/
+theorem file_last_wins {M : Type} (k : Name) : ∀ (l : List (Name × M)) (d : List (Name × M)),
+    lookup k (l.foldl (fun d kv => setKey kv.1 kv.2 d) d) = lastDef k l (lookup k d) := by
+  intro l
+  induction l with
+  | nil => intro d; rfl
+  | cons x l ih =>
+    intro d
+    simp only [List.foldl_cons, lastDef]
+    rw [ih, lookup_setKey]
+    rfl
+
+/-- `merge_first_wins`, part 2 — what `load_config` (repeated `Config.merge_modules`) guarantees for every list of
+files and every module name `k`: the merged configuration holds for `k` the definition of the FIRST file that
+defines it, with origin `none` if that is the first file and `some equipment_id` of the defining file otherwise
+(`original_id`), nothing if no file defines it; and `k` is listed as ambiguous iff at least two files define it -/
+theorem merge_first_wins {M : Type} (f : CfgFile M) (rest : List (CfgFile M)) (k : Name) :
+    lookup k (loadConfig (f :: rest)).modules = firstDef (f :: rest) true k ∧
+    (k ∈ (loadConfig (f :: rest)).ambiguous ↔ 2 ≤ countFiles (f :: rest) k) := by
+  have hknown : ∀ x, (lookup x (⟨f.modules.map (fun m => (m.1, m.2, (none : Option Name))), []⟩ : Merged M).modules).isSome
+      = (fun x => (lookup x f.modules).isSome) x := by
+    intro x
+    have := Lemmas.Merge.lookup_map (fun m : M => (m, (none : Option Name))) x f.modules
+    simp only [this]
+    cases lookup x f.modules <;> rfl
+  obtain ⟨h1, h2⟩ := Lemmas.Merge.fold_spec rest _ _ hknown k
+  unfold loadConfig
+  constructor
+  · rw [h1]
+    have := Lemmas.Merge.lookup_map (fun m : M => (m, (none : Option Name))) k f.modules
+    simp only [this, firstDef]
+    cases hk : lookup k f.modules <;> simp
+  · rw [h2, Lemmas.Merge.ambRest_count]
+    have hc : countFiles (f :: rest) k = (if (lookup k f.modules).isSome then 1 else 0) + countFiles rest k := by
+      unfold countFiles
+      simp only [List.filter_cons]
+      split <;> simp <;> omega
+    rw [hc]
+    cases hg : (lookup k f.modules).isSome <;> simp <;> omega
 
 /-! ## non-vacuity (a small non-recursive instance of the oracles: a datatype is a pair of integer limits) -/
 
